@@ -591,6 +591,32 @@ func randomDeep(r *runner, rng *rand.Rand, n, depth int, disciplined bool) {
 	}
 }
 
+// directed regression for F39 (390bcd2): on a split cluster a pessimistic lock sits on a key next to the region border;
+// the scan form of PessimisticRollback (no keys) addressed to either region must remove exactly the locks of that region.
+// The addressed region depends on the command text, so several for-update timestamps are tried.
+func directedRPC(r *runner, rng *rand.Rand) {
+	n := 0
+	for _, k := range []uint64{2, 3, 4} {
+		for j := 0; j < 6; j++ {
+			s := tsOf(2 + rng.Intn(3))
+			fu := tsOf(7 + j)
+			cmds := []string{
+				fmt.Sprintf("pl 2 %s %s 0 0 0 1 0 1 1 %s:1", hx(s), hx(tsOf(6)), hx(k)),
+				fmt.Sprintf("pr 0 0 - %s %s", hx(s), hx(fu)),
+				fmt.Sprintf("pr 0 0 - %s %s", hx(s), hx(fu+tsOf(1))),
+				fmt.Sprintf("get %s %s -", hx(k), hx(tsOf(20))),
+			}
+			id := "p" + strconv.Itoa(n)
+			n++
+			r.begin(id, "directed-rpc-pess-rollback-scan")
+			for _, c := range cmds {
+				r.cmd(c)
+			}
+			runRPC(id, cmds, true)
+		}
+	}
+}
+
 func generate(r *runner, seed int64, tier string) {
 	rng := rand.New(rand.NewSource(seed*7919 + 17))
 	thorough := tier == "thorough"
@@ -605,6 +631,7 @@ func generate(r *runner, seed int64, tier string) {
 		nd, nr, nf = 6000, 20000, 10000
 	}
 	directed(r, rng, envInt("VERIF_C12_DIRECTED", nd))
+	directedRPC(r, rng)
 	randomDeep(r, rng, envInt("VERIF_C12_RANDOM", nr), 40, true)
 	randomDeep(r, rng, envInt("VERIF_C12_FREE", nf), 40, false)
 	if envInt("VERIF_C12_EXH", 1) == 0 {
